@@ -200,22 +200,6 @@ Fixpoint prop_lookup {A} (attr : str) (t : list (str * A)) : option A :=
   | (a, x) :: r => if list_eqb attr a then Some x else prop_lookup attr r
   end.
 
-(* int(str) on ASCII decimal strings with an optional minus sign; anything else: ValueError.
-   (Python's int() also accepts surrounding white space, a plus sign, underscores and non-ASCII digits: those
-   inputs are outside the modelled domain.) *)
-Fixpoint dec_digits (s : str) (acc : N) : option N :=
-  match s with
-  | [] => Some acc
-  | c :: r => if is_digit c then dec_digits r (acc * 10 + (c - 48)) else None
-  end.
-Definition parse_dec (s : str) : option Z :=
-  match s with
-  | [] => None
-  | c :: r =>
-      if c =? 45 then match r with [] => None | _ => option_map (fun n => Z.opp (Z.of_N n)) (dec_digits r 0) end
-      else option_map Z.of_N (dec_digits s 0)
-  end.
-
 (* the text stored by the final branch of _set_cache_value: str(type(value)) *)
 Definition cc_store_text (ty : cctype) (v : ccval) : res str :=
   match ty, v with
@@ -329,13 +313,12 @@ Fixpoint split_on (sep : N) (s : str) : list str :=
   end.
 
 (* parse_csp_header: policies without a space are ignored; later duplicates win (dict(items)) *)
-Definition parse_csp (s : str) : sdict :=
-  fold_left (fun d policy =>
-               let p := strip uni_ws policy in
-               match partition1 SP p with
-               | (k, Some v) => ad_set (strip uni_ws k) (strip uni_ws v) d
-               | (_, None) => d
-               end) (split_on SEMI s) [].
+Definition csp_add_policy (d : sdict) (policy : str) : sdict :=
+  match partition1 SP (strip uni_ws policy) with
+  | (k, Some v) => ad_set (strip uni_ws k) (strip uni_ws v) d
+  | (_, None) => d
+  end.
+Definition parse_csp (s : str) : sdict := fold_left csp_add_policy (split_on SEMI s) [].
 
 Inductive cspop :=
 | CSetAttr (attr : str) (v : option str) | CDelAttr (attr : str) | CDict (o : dop str).
